@@ -228,7 +228,7 @@ theorem fill_current (sp : Spec) (s : St) (v : View) (hf : ∀ p ∈ s.cache, p.
     · simp only [hsc, if_true, run, List.cons_append, List.nil_append, List.foldl_cons, List.foldl_nil, step]
       obtain ⟨h1, _, _, _, h5, _, _⟩ := isStaleS_fields sp s
       exact hput _ h1 (by rw [h5]; exact hf)
-    · simp only [hsc, run, List.nil_append, List.foldl_cons, List.foldl_nil, step]
+    · simp only [hsc, run]
       exact hput s rfl hf
 
 /-- what the wrapper establishes on an unlocked neuron: stamp = content and every entry current -/
@@ -310,7 +310,7 @@ theorem unwrapped_stale (sp : Spec) (s : St) (v : View) (hw : v.wrapped = false)
     · simp only [hsc, if_true, List.cons_append, List.nil_append, List.foldl_cons, List.foldl_nil, step]
       refine ⟨has_put _ _, ?_⟩
       rw [tagOf_put, (isStaleS_fields sp s).1]
-    · simp only [hsc, List.nil_append, List.foldl_cons, List.foldl_nil, step]
+    · simp only [hsc]
       exact ⟨has_put _ _, tagOf_put _ _⟩
   refine ⟨?_, rfl⟩
   unfold readTag
@@ -496,7 +496,7 @@ theorem K_fill {sp : Spec} {s : St} (h : K sp s) (hm : s.md5 = s.ver) {v : View}
     · simp only [hsc, if_true, run, List.cons_append, List.nil_append, List.foldl_cons, List.foldl_nil, step]
       obtain ⟨f1, _, f3, _, _, _, _⟩ := isStaleS_fields sp s
       exact K_put_of_stamp (K_isStale h) (by rw [f3, f1]; exact hm) ha
-    · simp only [hsc, run, List.nil_append, List.foldl_cons, List.foldl_nil, step]
+    · simp only [hsc, run]
       exact K_put_of_stamp h hm ha
 
 theorem K_read {sp : Spec} (hs : SoundFacts sp) {s : St} (h : K sp s) {v : View} (hv : v ∈ sp.views)
